@@ -338,4 +338,92 @@ def r4_per_instance_state(ctx: Ctx) -> None:
     ctx.check(any(call_name(c) == "Scanner" for c in calls_in(pa.node)) and any(call_name(c) == "Parser" for c in calls_in(pa.node)), "parse_as_ast:fresh-scanner-parser", "each parse creates its own scanner and parser")
 
 
-RULES = [r1_census, r2_nobody_writes, r3_shared_buses_frozen, r4_per_instance_state]
+def param_mutations(ctx: Ctx) -> dict[str, set[str]]:
+    """function -> names of its parameters whose object it (transitively) mutates."""
+    rs = get_resolver(ctx.repo)
+    direct: dict[str, set[str]] = {}
+
+    def root_name(e: ast.AST) -> str | None:
+        while isinstance(e, (ast.Subscript, ast.Attribute)):
+            e = e.value
+        return e.id if isinstance(e, ast.Name) else None
+
+    for fn in ctx.repo.all_functions():
+        ps = set(fn.params())
+        m: set[str] = set()
+        rebound = {t.id for n in walk_no_nested(fn.node) if isinstance(n, ast.Assign) for t in n.targets if isinstance(t, ast.Name)}
+        for n in walk_no_nested(fn.node):
+            tl: list[ast.AST] = []
+            if isinstance(n, (ast.Assign, ast.Delete)):
+                tl = list(n.targets)
+            elif isinstance(n, (ast.AugAssign, ast.AnnAssign)):
+                tl = [n.target]
+            for t in tl:
+                if isinstance(t, (ast.Subscript, ast.Attribute)):
+                    r = root_name(t)
+                    if r in ps and r not in rebound:
+                        m.add(r)
+            if isinstance(n, ast.Call) and isinstance(n.func, ast.Attribute) and n.func.attr in MUTATORS:
+                r = root_name(n.func.value)
+                if r in ps and r not in rebound:
+                    m.add(r)
+        direct[fn.fq] = m
+    changed = True
+    while changed:
+        changed = False
+        for fq, sites in rs.sites.items():
+            caller = rs.by_fq[fq]
+            ps = set(caller.params())
+            for sct in sites:
+                for t in sct.targets:
+                    tparams = t.params()
+                    offset = 1 if (t.cls is not None and not t.is_static() and tparams and tparams[0] in ("self", "cls")) else 0
+                    # receiver object = callee's self
+                    if offset and isinstance(sct.node.func, ast.Attribute) and "self" in direct.get(t.fq, set()):
+                        r = root_name(sct.node.func.value)
+                        if r in ps and r not in direct[fq]:
+                            direct[fq].add(r); changed = True
+                    for i, a in enumerate(sct.node.args):
+                        if i + offset < len(tparams) and tparams[i + offset] in direct.get(t.fq, set()):
+                            r = root_name(a) if isinstance(a, (ast.Name,)) else None
+                            if r in ps and r not in direct[fq]:
+                                direct[fq].add(r); changed = True
+    return direct
+
+
+def r5_shared_objects_not_passed_to_mutators(ctx: Ctx) -> None:
+    """a process-lifetime object handed to a function that mutates that parameter (directly or further down) is mutated all the same."""
+    cens = census(ctx)
+    rs = get_resolver(ctx.repo)
+    muts = param_mutations(ctx)
+    n_sites = 0
+    for fq, sites in rs.sites.items():
+        caller = rs.by_fq[fq]
+        info = _shared_roots(ctx, caller, cens)
+        root_of = info.pop("__fn__")  # type: ignore[arg-type]
+        for sct in sites:
+            for t in sct.targets:
+                tparams = t.params()
+                offset = 1 if (t.cls is not None and not t.is_static() and tparams and tparams[0] in ("self", "cls")) else 0
+                for i, a in enumerate(sct.node.args):
+                    n_sites += 1
+                    if i + offset >= len(tparams):
+                        continue
+                    r = root_of(a)  # type: ignore[operator]
+                    if r and tparams[i + offset] in muts.get(t.fq, set()):
+                        ctx.fail(f"{caller.where}:{unparse(sct.node)[:50]}", f"passes the process-lifetime object {r} as `{tparams[i + offset]}` to {t.qualname}, which mutates it")
+                for k in sct.node.keywords:
+                    r = root_of(k.value)  # type: ignore[operator]
+                    if r and k.arg in muts.get(t.fq, set()):
+                        ctx.fail(f"{caller.where}:{unparse(sct.node)[:50]}", f"passes the process-lifetime object {r} as `{k.arg}` to {t.qualname}, which mutates it")
+                if offset and isinstance(sct.node.func, ast.Attribute) and "self" in muts.get(t.fq, set()) and t.name not in ("map", "unmap", "__init__"):
+                    r = root_of(sct.node.func.value)  # type: ignore[operator]
+                    if r:
+                        ctx.fail(f"{caller.where}:{unparse(sct.node)[:50]}", f"calls {t.qualname}, which mutates its receiver, on the process-lifetime object {r}")
+    ctx.count("argument_positions", n_sites)
+    ctx.count("mutating_functions", sum(1 for v in muts.values() if v))
+    ctx.floor("argument_positions", 500)
+    ctx.ok("C19:no-shared-object-reaches-a-mutator", f"{n_sites} argument positions checked against {sum(1 for v in muts.values() if v)} parameter-mutating functions")
+
+
+RULES = [r1_census, r2_nobody_writes, r3_shared_buses_frozen, r4_per_instance_state, r5_shared_objects_not_passed_to_mutators]
